@@ -235,7 +235,9 @@ def run_engine(run, binary, exe, filters, flavour='n', scale=None, timeout=None,
     if extra_env: env.update(extra_env)
     cmd = [exe, 'run', run.tier] + filters
     log('run', os.path.basename(exe), run.tier, ' '.join(filters), '[%s]' % flavour)
+    t_run = time.time()
     p = subprocess.run(cmd, stdout=subprocess.PIPE, stderr=subprocess.PIPE, text=True, errors='replace', env=env, timeout=timeout)
+    log('  %s [%s] finished in %.1fs' % (binary, flavour, time.time() - t_run))
     sys.stderr.write(''.join(l + '\n' for l in p.stderr.splitlines() if l.startswith('[engine]')))
     if os.path.exists(out):
         run.merge_engine_result(out, binary, flavour)
